@@ -103,7 +103,8 @@ CLAIMS = {
             'exponent notation (fixed-point spec, integer, or helper whose every return is guarded by a test for an exponent marker); '
             'language inclusion (regex automata) of every command text the hooks can pass in the parameter-extraction regex of the firmware retract / recover commands; '
             'writer census of the remembered command text spliced into them; string surgery on rendered numbers refused; the values '
-            'themselves: algebra of the generated G92 E / G1 E pair (C04.R3 / R4) and the exit value rules C03.R1 / R4 as premises',
+            'themselves: algebra of the generated G92 E / G1 E pair (C04.R3 / R4), the exit value rules C03.R1 / R4 and the mode '
+            'semantics of the deferred parameter map (C06.R6) as premises',
             'finiteness of the values is not decided'),
     'C08': ('conversion laws of AxisPosition as polynomial identities (round trips in both modes, firmware map, G92 law, '
             'homing), native arguments of the region tests, sibling agreement of G20/G21/G90/G91 over all axes and the feed '
